@@ -239,7 +239,7 @@ fn update_stake_distribution(&self, epoch: Epoch) -> (ret: Result<(), StdError>)
             .ok_or(StdError {})?;
         self.services
             .stake_store
-            .save_stakes(epoch, stake_distribution)
+            .save_stakes(epoch.offset_to_recording_epoch(), stake_distribution)
             ?;
 
         Ok(())
